@@ -528,6 +528,25 @@ def gen_call_history(rng, impl, family):
     return {"kind": "hist", "family": family, "vlen": vlen, "ops": ops}
 
 
+def exhaustive_delta_histories(tck):
+    """every combination of delta ∈ {-5, 0, 1, 30, 100} ticks on user/idle/iowait/steal (total from 0 to
+    4 s, sub-second totals, decreasing counters), both functions, one blocking call each."""
+    import itertools
+    vals = [-5, 0, 1, 30, 100]
+    cols = (0, 3, 4, 7)
+    base = [1000] * 10
+    a = render_snapshot(10, [base]).hex()
+    for combo in itertools.product(vals, repeat=len(cols)):
+        new = list(base)
+        for c, v in zip(cols, combo):
+            new[c] = base[c] + v
+        b = render_snapshot(10, [new]).hex()
+        for fn in ("percent", "times_percent"):
+            yield {"kind": "hist", "family": "exhaustive", "vlen": 10, "ops": [
+                {"op": "call", "vlen": 10, "tck": tck, "fn": fn, "tid": 1, "interval": [1, 1], "percpu": False,
+                 "reads": [a, b]}]}
+
+
 PROC_FAMILIES = ["steady", "zero_dt", "objects", "blocking", "hotplug", "negative", "ncpu_odd"]
 
 
@@ -1067,6 +1086,10 @@ def correspond(ctx, res):
         nh = ctx.n(700, 20000)
         for i in range(nh):
             hists.append(gen_call_history(ctx.rng, impl, CALL_FAMILIES[i % len(CALL_FAMILIES)]))
+        n_sampled = len(hists)
+        hists.extend(exhaustive_delta_histories(impl.tck))
+        res.exhaustive += ("; all %d combinations of delta ∈ {-5,0,1,30,100} ticks on user/idle/iowait/steal × both "
+                           "functions (blocking form)" % ((len(hists) - n_sampled) // 2))
         hists.sort(key=lambda h: h["vlen"])
         CH = 400
         for a in range(0, len(hists), CH):
